@@ -8,6 +8,10 @@ use std::panic::{catch_unwind, AssertUnwindSafe};
 
 pub struct C09;
 
+pub const VOCAB: [&str; 40] = ["encrypt", "enc", "decrypt", "dec", "key", "generate", "gen", "change-pass", "extract-pub", "password", "pass", "--env-pass",
+    "-t", "--to", "-f", "--from", "-o", "--output", "-k", "--keyring", "-h", "--help", "-v", "--version", "--", "-", "bob", "alice", "nobody", "in.bin", "out.bin", "kr.txt", "missing.bin",
+    "", "-x", "--to=bob", "-o=out.bin", "=", "é", "<SK>"];
+
 fn guard<T, F: FnOnce() -> T>(f: F) -> Option<T> { catch_unwind(AssertUnwindSafe(f)).ok() }
 
 /// a valid small key-mode file and its keys (deterministic)
@@ -69,7 +73,7 @@ impl Prop for C09 {
     fn rule(&self) -> String {
         "per untrusted-input surface, under catch_unwind with overflow checks and debug assertions on: AEAD ciphertexts of every length 0..64 and 1 KiB; Noise handshake messages of every length 0..200, 65535, 65536 \
          (random, and prefixes / bit flips of a valid message); key-mode and password-mode files = every prefix of valid files, single-bit flips, hostile length and flag fields, wrong magics, appended bytes, random bytes; \
-         encoded public / private key strings over {base64 alphabet, padding, whitespace, UTF-8} with lengths 0..130; keyring texts; heap peak while rejecting hostile length fields. \
+         encoded public / private key strings over {base64 alphabet, padding, whitespace, UTF-8} with lengths 0..130; keyring texts; heap peak while rejecting hostile length fields; the real binary with every argument vector of length <= 2 over a 40-word vocabulary (commands, aliases, options in all spellings, values, oddities) and seeded longer vectors, in a world with files, environment and piped stdin but no terminal: exit status 0 or 1, an Error: line iff 1, no signal, no hang, and the same exit status and files as the Lean CLI model. \
          compared: result class (ok | err | crash) of the implementation vs the Lean model; non-trivial = distinct (surface, length / mutation kind, outcome)".into()
     }
     fn cases(&self, tier: &str, seed: u64) -> Vec<Case> {
@@ -90,6 +94,12 @@ impl Prop for C09 {
         for cut in (0..=84usize).step_by(if th { 1 } else { 4 }) { v.push(case(&[("surface", "passfile".into()), ("how", "prefix".into()), ("cut", cut.to_string()), ("seed", "7".into())])); }
         for _ in 0..(if th { 6000 } else { 1200 }) { v.push(case(&[("surface", "pkstr".into()), ("seed", rng.next().to_string())])); }
         for _ in 0..(if th { 1500 } else { 300 }) { v.push(case(&[("surface", "skstr".into()), ("seed", rng.next().to_string())])); }
+        // CLI argument vectors: every vector of length <= 2 (thorough: a sample of length 3) over the vocabulary, plus random longer ones
+        let nv = VOCAB.len();
+        v.push(case(&[("surface", "argv".into()), ("words", "-".into()), ("seed", rng.next().to_string())]));
+        for a in 0..nv { v.push(case(&[("surface", "argv".into()), ("words", a.to_string()), ("seed", rng.next().to_string())]));
+            for b in 0..nv { v.push(case(&[("surface", "argv".into()), ("words", format!("{},{}", a, b)), ("seed", rng.next().to_string())])); } }
+        for _ in 0..(if th { 10000 } else { 1500 }) { let n = rng.range(3, 9); let ws: Vec<String> = (0..n).map(|_| if rng.chance(1, 2) { rng.below(12).to_string() } else { rng.below(nv).to_string() }).collect(); v.push(case(&[("surface", "argv".into()), ("words", ws.join(",")), ("seed", rng.next().to_string())])); }
         for i in 0..(if th { 40 } else { 12 }) { v.push(case(&[("surface", "heap".into()), ("mode", (if i % 2 == 0 { "key" } else { "pass" }).into()), ("seed", rng.next().to_string())])); }
         v
     }
@@ -179,6 +189,29 @@ impl Prop for C09 {
                 o.tags.push(format!("skstr -> {}", o.impl_obs));
                 if r.is_none() { fail_crash(&mut o, "EncodedSk::try_from / unlock_private_key"); }
                 else if o.impl_obs != mr { o.disagreement = Some(format!("impl '{}' model '{}' on {:?}", o.impl_obs, mr, s)); }
+            }
+            "argv" => {
+                use crate::cli::*;
+                let fx = fixtures();
+                let words: Vec<String> = if get(c, "words") == "-" { vec![] } else { get(c, "words").split(',').map(|i| { let w = VOCAB[i.parse::<usize>().unwrap_or(0) % VOCAB.len()]; if w == "<SK>" { fx.bob.enc_sk.clone() } else { w.to_string() } }).collect() };
+                let (ct, _, _, _) = { let p = crate::gen::payload(9, 25); (imp::key_encrypt(&fx.alice.sk, &fx.alice.pk, &fx.bob.pk, None, None, &p, &NOSCRIPT).out, 0, 0, 0) };
+                let mut env: Vec<(String, String)> = vec![];
+                if rng.chance(2, 3) { env.push(("KESTREL_PASSWORD".into(), fx.bob.pw.into())); }
+                if rng.chance(1, 2) { env.push(("KESTREL_KEYRING".into(), "kr.txt".into())); }
+                if rng.chance(1, 3) { env.push(("KESTREL_NEW_PASSWORD".into(), "new".into())); }
+                let world = World { files: vec![("in.bin".into(), ct), ("kr.txt".into(), keyring(&[(&fx.alice, true), (&fx.bob, true)]).into_bytes()), ("old.bin".into(), b"old".to_vec())], env, stdin: b"argv-name\n".to_vec() };
+                let obs = run_kestrel(&world, &words);
+                let mo = model_cli(m, &world, &words, &rng.bytes(32), &rng.bytes(32)); o.validated += 1;
+                o.impl_obs = format!("exit={:?} signal={} timeout={} stderr={:?}", obs.exit, obs.signal, obs.timed_out, obs.stderr.lines().next().unwrap_or("").chars().take(50).collect::<String>());
+                o.model_obs = format!("exit={} err={}", mo.exit, mo.err);
+                o.nontrivial = Some(format!("argv/{}/{}", get(c, "words"), world.env.len()));
+                o.tags.push(format!("argv len={} -> exit {:?}", words.len().min(4), obs.exit));
+                let label = format!("kestrel {:?}", words);
+                if obs.timed_out { o.oracle_fail = Some(("no-hang".into(), format!("{}: still running after 30 s", label))); }
+                else if obs.signal || !matches!(obs.exit, Some(0) | Some(1)) { o.oracle_fail = Some(("exit-0-or-1".into(), format!("{}: exit {:?} (signal: {}) stderr {:?}", label, obs.exit, obs.signal, obs.stderr.chars().take(200).collect::<String>()))); }
+                else if (obs.exit == Some(1)) != obs.error_line() { o.oracle_fail = Some(("error-line-iff-exit-1".into(), format!("{}: exit {:?} stderr {:?}", label, obs.exit, obs.stderr.chars().take(200).collect::<String>()))); }
+                else if Some(mo.exit) != obs.exit { o.disagreement = Some(format!("{}: exit impl {:?} model {} ({})", label, obs.exit, mo.exit, mo.err)); }
+                else { let a: Vec<_> = obs.files.iter().map(|(n, b)| (n.clone(), b.len())).collect(); let b: Vec<_> = mo.files.iter().map(|(n, b)| (n.clone(), b.len())).collect(); if a != b { o.disagreement = Some(format!("{}: files after impl {:?} model {:?}", label, a, b)); } }
             }
             _ => {
                 // heap: a header that claims the largest chunk, then nothing; the rejection must not allocate proportionally to any field
